@@ -36,6 +36,8 @@ type Obligation struct {
 	// Definite: a refutation is reported as a violation even for an obligation that is not in the
 	// baseline (lock-state preconditions: the ghost lock state is exact along every path)
 	Definite bool
+	// Parts: the goal is the conjunction of these goals; each is decided by its own (smaller) query
+	Parts []*Term
 }
 
 type inputSym struct {
